@@ -58,6 +58,45 @@ def _ty_of_arg0(body, t):
     return ""
 
 
+def direct_producer(body, site):
+    """Callee key of the call that directly produced the unwrapped value (through transparent adapters)."""
+    op = site.operands[0]
+    for _ in range(8):
+        pl = F.op_place(op)
+        if pl is None:
+            return None
+        c = dep.single_def_call(body, pl[0])
+        if c is not None:
+            ck = F.callee_key(c[1]) or ""
+            name = ck.rsplit("::", 1)[-1]
+            if name in ("as_ref", "as_mut", "clone", "deref", "deref_mut", "cloned", "copied", "map", "ok", "ok_or", "map_err", "as_deref", "or") and F.call_args(c[1]):
+                op = F.call_args(c[1])[0]
+                continue
+            if name in ("poll",) or "{closure#" in ck:
+                return ck
+            return ck
+        r = dep.single_def_rvalue(body, pl[0])
+        if r is None:
+            return None
+        rv = r[1]
+        if rv[0] == "use":
+            op = rv[1]
+        elif rv[0] == "ref":
+            op = ["cp", [rv[2][0], []]]
+        else:
+            return None
+    return None
+
+
+def _short_producer(prod):
+    if not prod:
+        return "?"
+    parts = [x for x in prod.split("::") if not x.startswith("{impl#")]
+    if parts and parts[-1].startswith("{closure#"):
+        parts = parts[:-1] + ["closure"]
+    return parts[-1] if parts else "?"
+
+
 def enumerate_sites(prog, body, contract_fns=()):
     """All potential panic sites of one body (non-cleanup blocks)."""
     out = []
@@ -94,7 +133,12 @@ def enumerate_sites(prog, body, contract_fns=()):
                 which = (ms[-1] if ms else mac[-1]).replace("$crate::", "").replace("panic::", "")
             out.append(Site(body, bb, "panic", which, F.call_loc(t), t, list(args), mac))
         elif ck in UNWRAP_FNS:
-            out.append(Site(body, bb, "unwrap", ck.split("::")[1] + "::" + ck.rsplit("::", 1)[-1], F.call_loc(t), t, [args[0]]))
+            # unwrap and expect are one kind of site; the site is named after what produced the value, so that adding
+            # or removing an unrelated unwrap in the same function does not renumber it
+            site = Site(body, bb, "unwrap", ck.split("::")[1] + "::" + ck.rsplit("::", 1)[-1].replace("expect", "unwrap"), F.call_loc(t), t, [args[0]])
+            prod = direct_producer(body, site)
+            site.desc += "<-" + _short_producer(prod)
+            out.append(site)
         elif decl.endswith("ops::index::Index::index") or decl.endswith("ops::index::IndexMut::index_mut"):
             out.append(Site(body, bb, "index", "%s[%s]" % (_short_ty(_ty_of_arg0(body, t)), _short_ty(body.tystr(c["a"][1]) if len(c.get("a", [])) > 1 and isinstance(c["a"][1], int) else "?")), F.call_loc(t), t, list(args)))
         elif ck in API_PANICS and API_PANICS[ck]:
